@@ -145,11 +145,15 @@ def build_harness(ctx):
         if not pins <= set(re.findall(r'name = "([^"]+)"\nversion = "([^"]+)"', cur)):
             open(lock_dst, 'w').write(lock_src)
     r = sh(['cargo', 'build', '--release', '--offline'], cwd=HARNESS, env=ENV)
+    if r.returncode == 0 and ctx.prop == 'C08':
+        # second, unoptimised build for the ladders: recursion depth and frame sizes as a development build has them
+        r = sh(['cargo', 'build', '--profile', 'ladder', '--offline'], cwd=HARNESS, env=ENV)
     log(f"[{ctx.prop}] harness build rc={r.returncode} {time.time() - t0:.1f}s")
     return r.returncode == 0, r.stderr[-4000:]
 
 
 HBIN = os.path.join(HARNESS, 'target', 'release', 'jpharness')
+HBIN_LADDER = os.path.join(HARNESS, 'target', 'ladder', 'jpharness')
 MBIN = os.path.join(LEAN, '.lake', 'build', 'bin', 'jpmodel')
 
 
